@@ -155,6 +155,48 @@ def case_asn_polling(tid, N, n0, nbig, c):
     return guard(rec, go)
 
 
+def case_raire_estimator(tid, N, mean, r1, r2, polling, tally=None, upper=1):
+    """shangrla.raire.sample_estimator.sample_size: RAIRE's own front end to the same estimate.  It builds its test
+    object itself, so the population it hands over is recorded by wrapping NonnegMean.sample_size for the duration of
+    the call, and the history is what that very test object reports on that population."""
+    import types
+    from shangrla.core.NonnegMean import NonnegMean
+    from shangrla.raire import sample_estimator
+    v = 2 * F(mean) - 1
+    step1 = int(1 / r1) if r1 else 0
+    step2 = int(1 / r2) if r2 else 0
+    if polling:
+        tw, tl, to = tally
+        rec = {"kind": "asn_polling", "tid": tid, "N": N, "ns": tl, "nm": to, "nb": tw, "alpha": rs(ALPHA), "audit": "RAIRE-estimator"}
+    else:
+        rec = {"kind": "asn_comparison", "tid": tid, "N": N, "u": rs(F(upper)), "v": rs(v), "step1": step1, "step2": step2,
+               "alpha": rs(ALPHA), "audit": "RAIRE-estimator"}
+
+    def go():
+        seen = {}
+        orig = NonnegMean.sample_size
+
+        def spy(self, x, *a, **k):
+            import numpy as np
+            seen["x"] = np.array(x, dtype=float).copy()
+            seen["obj"] = self
+            return orig(self, x, *a, **k)
+        NonnegMean.sample_size = spy
+        try:
+            args = types.SimpleNamespace(erate1=r1, erate2=r2, rlimit=float(ALPHA), reps=None, seed=1)
+            tw, tl, to = tally if polling else (0, 0, 0)
+            res = sample_estimator.sample_size(float(mean), tw, tl, to, args, N, upper_bound=upper, polling=polling)
+        finally:
+            NonnegMean.sample_size = orig
+        hist = seen["obj"].test(seen["x"].copy())[1]
+        rec["hist"] = [rs(h) for h in hist]
+        if polling:
+            name = {0.0: "s", 0.5: "m", 1.0: "b"}
+            return {"seq": [name.get(float(x), "?") for x in seen["x"]], "result": int(res), "attr": int(res)}
+        return {"pop": [rs(x) for x in seen["x"]], "result": int(res), "attr": int(res)}
+    return guard(rec, go)
+
+
 def case_asn_data(tid, x, N, c):
     h = {"c": c, "seen": []}
     rec = {"kind": "asn_data", "tid": tid, "x": [rs(v) for v in x], "N": N, "c": c, "alpha": rs(ALPHA),
@@ -281,6 +323,16 @@ def run(pid, tier):
                 for at in ("CARD_COMPARISON", "ONEAUDIT"):
                     recs.append(case_asn_comparison(f"a{k}", N, u, v, r1, r2, rng.randint(0, N), at))
                     k += 1
+    # RAIRE's own front end (its own test object: ALPHA with the comparison-optimal / shrink-truncate estimator)
+    for N in ((12, 40) if tier == "quick" else (12, 40, 90, 200)):
+        for mean in (F(11, 20), F(3, 5), F(3, 4)):
+            for r1, r2 in ((0, 0), (0.25, 0), (0, 0.2), (0.34, 0.2), (0.1, 0.25), (0.5, 0.05)):
+                recs.append(case_raire_estimator(f"re{k}", N, mean, r1, r2, False))
+                k += 1
+            nb = int(N * mean)
+            ns = rng.randint(0, N - nb)
+            recs.append(case_raire_estimator(f"re{k}", N, mean, 0, 0, True, tally=(nb, ns, N - nb - ns)))
+            k += 1
     for j in range(40 if tier == "quick" else 400):
         N = rng.randint(3, 9)
         cr = [rng.randint(0, N) for _ in range(rng.randint(1, 3))]
@@ -305,7 +357,8 @@ def run(pid, tier):
     for tid, clauses in rejects.items():
         r = byid[tid]
         site = {"tile": "NonnegMean.sample_size", "prefix": "NonnegMean.sample_size/prefix", "interleave": "Assertion.interleave_values",
-                "asn_comparison": "Assertion.find_sample_size/" + r.get("audit", "comparison"), "asn_polling": "Assertion.find_sample_size/POLLING",
+                "asn_comparison": "Assertion.find_sample_size/" + r.get("audit", "comparison"),
+                "asn_polling": "Assertion.find_sample_size/" + r.get("audit", "POLLING"),
                 "asn_data": "Assertion.find_sample_size/data", "contest": "Contest.find_sample_size/" + r.get("audit", ""),
                 "audit": "Audit.find_sample_size"}[r["kind"]]
         if r["kind"] == "contest" and r.get("style"):
